@@ -123,6 +123,12 @@ class Proof:
             if rc != 0:
                 raise ToolError('goto-instrument --dfcc failed:\n' + out[-3000:])
             cur = gb1
+        gbd = base + '.d.gb'
+        cmd = ['goto-instrument', '--drop-unused-functions', cur, gbd]
+        rc, out, dt, to = sh(cmd, 300)
+        self.log += '$ ' + ' '.join(cmd) + '\n' + out
+        if rc == 0:
+            cur = gbd
         self.gb = cur
         return cur
 
@@ -178,6 +184,8 @@ class Proof:
     def run_group(self, names, tier):
         s = self.s
         timeout = s.get('timeout', {}).get(tier, 180) if isinstance(s.get('timeout'), dict) else s.get('timeout', 180)
+        if os.environ.get('VERIF_TIMEOUT_CAP'):
+            timeout = min(timeout, int(os.environ['VERIF_TIMEOUT_CAP']))
         mem = s.get('mem_gb', DEFAULT_MEM_GB)
         env = dict(os.environ, TMPDIR=self.wd)
         attempts = []
